@@ -274,8 +274,10 @@ class PyMarkdownApi:
         self.__verify_string_argument_not_empty("string_to_scan", string_to_scan)
 
         try:
+            # Keep the line endings of the string as they are, both when writing it
+            # out and when reading the (possibly fixed) document back in.
             with tempfile.NamedTemporaryFile(
-                "wt", suffix=".md", encoding="utf-8", delete=False
+                "wt", suffix=".md", encoding="utf-8", newline="", delete=False
             ) as temp_file:
                 temp_file.write(string_to_scan)
 
@@ -299,7 +301,9 @@ class PyMarkdownApi:
                     else 99
                 )
             fix_result = self.__handle_fix_results(return_code, this_presentation)
-            with open(temp_file.name, "rt", encoding="utf-8") as fixed_file:
+            with open(
+                temp_file.name, "rt", encoding="utf-8", newline=""
+            ) as fixed_file:
                 return PyMarkdownFixStringResult(
                     bool(fix_result.files_fixed), fixed_file.read()
                 )
